@@ -37,6 +37,29 @@ class FnSpec:
         self.external_body = False
         self.opts = {}
 
+def rename_spec(spec, mapping):
+    """R-paramrename: the same contract with parameter names replaced (the function's parameters were renamed, types unchanged)"""
+    import copy
+    def sub(t):
+        for a, b in mapping.items(): t = re.sub(r"(?<![\w.])%s\b(?!\s*:)" % re.escape(a), "\x00" + b + "\x00", t)
+        return t.replace("\x00", "")
+    c = copy.copy(spec)
+    c.requires = [(l, sub(t)) for l, t in spec.requires]; c.ensures = [(l, sub(t)) for l, t in spec.ensures]
+    c.entry = [sub(t) for t in spec.entry]; c.tail = [sub(t) for t in spec.tail]
+    c.after = [(rx, sub(t)) for rx, t in spec.after]; c.before = [(rx, sub(t)) for rx, t in spec.before]
+    c.loops = {k: sub(t) for k, t in spec.loops.items()}; c.loopbody = {k: sub(t) for k, t in spec.loopbody.items()}; c.loopend = {k: sub(t) for k, t in spec.loopend.items()}
+    return c
+
+def param_names(params_text):
+    out = []
+    for prm in split_top(params_text):
+        prm = prm.strip()
+        if not prm or re.match(r"^&?\s*('\w+\s+)?(mut\s+)?self$", prm): continue
+        m = re.match(r"^(?:mut\s+)?(\w+)\s*:\s*(.+)$", prm, re.S)
+        if not m: return None
+        out.append((m.group(1), R.norm(m.group(2))))
+    return out
+
 class Specs:
     def __init__(self):
         self.fns = {}        # (file, impl_norm, name) -> FnSpec
@@ -324,7 +347,24 @@ def collect_inline_defs(keys):
                     d = sig_split(R.text(it.sig))
                     if d["gen"].strip() or d["where"].strip(): continue
                     body = R.text(it.body).strip()
-                    if re.search(r"\breturn\b|\?", body): continue
+                    if re.search(r"\breturn\b", body): continue
+                    has_q = "?" in body
+                    if has_q:
+                        # `?` inside the helper leaves the helper with Err(From::from(e)); inlined at a call site of the form `h(..)?` whose
+                        # enclosing function has the SAME error type it leaves the caller with the same value.  Needs a tail `Ok(EXPR)`.
+                        inner = body[1:-1].rstrip()
+                        mt = re.search(r"(?:^|[;}\n])\s*Ok\(", inner)
+                        tails = [mm for mm in re.finditer(r"\bOk\(", inner)]
+                        if not tails: continue
+                        last = tails[-1]
+                        try:
+                            cl = find_matching(inner, last.end() - 1)
+                        except Exception:
+                            continue
+                        if inner[cl + 1:].strip() != "": continue      # the last Ok(..) is not the tail expression
+                        # everything before must end a statement
+                        if inner[:last.start()].rstrip() and inner[:last.start()].rstrip()[-1] not in ";}": continue
+                        body = "{" + inner[:last.start()] + "(" + inner[last.end():cl] + ")" + "}"
                     if re.search(r"\b%s\s*\(" % re.escape(name), body): continue      # recursive
                     params = []; selfparam = None; ok = True
                     for prm in split_top(d["params"]):
@@ -336,13 +376,21 @@ def collect_inline_defs(keys):
                         params.append((("mut " if m.group(1) else "") + m.group(2), m.group(3).strip()))
                     if not ok: continue
                     if name in defs: defs[name] = None; continue    # ambiguous name: do not inline
-                    defs[name] = {"params": params, "selfparam": selfparam, "body": body, "impl": ik, "file": rel, "uses_self_ty": bool(re.search(r"\bSelf\b", body))}
+                    mret = re.match(r"Result\s*<.*,\s*([^<>,]+(?:<[^<>]*>)?)\s*>\s*$", (d["ret"] or "").strip(), re.S)
+                    defs[name] = {"params": params, "selfparam": selfparam, "body": body, "impl": ik, "file": rel, "uses_self_ty": bool(re.search(r"\bSelf\b", body)),
+                                  "has_q": has_q, "err": (mret.group(1).strip() if mret else None)}
         walk(items, None)
     return {k: v for k, v in defs.items() if v}
 
-def inline_helpers(ctx, rel, ik, s):
+def inline_helpers(ctx, rel, ik, s, caller_ret=None):
     defs = getattr(ctx, "inline_defs", None)
     if not defs: return s
+    mret = re.match(r"Result\s*<.*,\s*([^<>,]+(?:<[^<>]*>)?)\s*>\s*$", (caller_ret or "").strip(), re.S)
+    caller_err = mret.group(1).strip() if mret else None
+    def same_err(a, b):
+        if not a or not b: return False
+        na = re.sub(r"^(?:\w+::)+", "", a.replace(" ", "")); nb = re.sub(r"^(?:\w+::)+", "", b.replace(" ", ""))
+        return na == nb and na != "Self::Error"
     for _round in range(3):
         changed = False
         for name, d in defs.items():
@@ -357,6 +405,9 @@ def inline_helpers(ctx, rel, ik, s):
                 cl = find_matching(s, op)
                 args = [a.strip() for a in split_top(s[op + 1:cl]) if a.strip()]
                 if len(args) != len(d["params"]): i = cl; continue
+                if d.get("has_q"):
+                    if not (s[cl + 1:cl + 2] == "?" and same_err(d.get("err"), caller_err)): i = cl; continue
+                    cl = cl + 1      # the call's own `?` is consumed: the inlined body already propagates errors
                 inner = d["body"][1:-1]
                 if args:
                     pats = ", ".join(p for p, _ in d["params"]); tys = ", ".join(t for _, t in d["params"])
@@ -732,6 +783,13 @@ class FileEmitter:
             new = re.sub(r"(&'static\s+)ValidatorFn\b", r"\1dyn ValidatorFn", sig)
             if new != sig: ctx.log("R-dynfn", self.rel, it.line, sig.strip()[:120], new.strip()[:120]); sig = new
         d = sig_split(sig)
+        pn = param_names(d["params"])
+        bp = getattr(ctx, "baseline_params", {}).get("%s|%s::%s" % key)
+        if spec and pn and bp and len(pn) == len(bp) and [t for _, t in pn] == [t for _, t in bp] and [n for n, _ in pn] != [n for n, _ in bp]:
+            mapping = {o: n for (o, _), (n, _) in zip(bp, pn) if o != n}
+            if not (set(mapping.values()) & set(o for o, _ in bp)):     # no swap / capture
+                ctx.log("R-paramrename", self.rel, it.line, str(sorted(mapping.items())), "contract parameter names follow the renamed parameters")
+                spec = rename_spec(spec, mapping)
         d = rule_implarg(ctx, self.rel, d)
         body = R.text(it.body) if it.body is not None else None
         self.dropped_hints = []
@@ -776,7 +834,7 @@ class FileEmitter:
                     declared = int(spec.opts.get("keyfrom", 0)) if spec else 0
                     if nkf != declared:
                         raise ExtractError("call site needs contract: %s fn %s has %d Key::from(<slice>) call(s) but its contract declares keyfrom=%d (DESIGN 1.2)" % (self.rel, it.name, nkf, declared))
-                    b = inline_helpers(ctx, self.rel, ik, b)
+                    b = inline_helpers(ctx, self.rel, ik, b, d["ret"])
                     b = rule_fold(ctx, self.rel, b)
                     b = rule_body_text(ctx, self.rel, b)
                     b = self.rule_lift(b, spec, it)
@@ -787,6 +845,7 @@ class FileEmitter:
         ctx.fn_index.append({"file": self.rel, "impl": ik, "fn": it.name, "line": it.line, "external_body": bool(ext or self.stub), "stubbed": bool(stub_this and not ext),
                              "body_hash": bh, "hints_dropped": list(self.dropped_hints) if (body is not None and not ext and not stub_this) else [],
                              "body_text": re.sub(r"\s+", " ", body or "")[:6000],
+                             "params": pn,
                              "sig_norm": R.norm(re.sub(r"\bfn\s+%s\b" % re.escape(it.name), "fn _", R.text(it.sig), count=1)),
                              "contract": bool(spec), "safety": spec.safety if spec else [],
                              "labels": [l for l, _ in (spec.requires + spec.ensures)] if spec else [],
@@ -807,7 +866,10 @@ class FileEmitter:
             name = "__Closure%d_%s" % (n, re.sub(r"\W", "_", os.path.basename(self.rel)[:-3]))
             if self.rel.endswith("paseto_parser.rs"):
                 body2 = re.sub(r"\bif (\w+) <= (\w+) \{", r"if \1.le(&\2) {", body)
-                if body2 != body: self.ctx.log("R-le", self.rel, it.line, "a <= b on OffsetDateTime", "a.le(&b)"); body = body2
+                body2 = re.sub(r"\bif (\w+) >= (\w+) \{", r"if \2.le(&\1) {", body2)
+                body2 = re.sub(r"\bif (\w+) < (\w+) \{", r"if !\2.le(&\1) {", body2)
+                body2 = re.sub(r"\bif (\w+) > (\w+) \{", r"if !\1.le(&\2) {", body2)
+                if body2 != body: self.ctx.log("R-le", self.rel, it.line, "a <= b / a >= b / a < b / a > b on OffsetDateTime", "a.le(&b) / b.le(&a) / !b.le(&a) / !a.le(&b)"); body = body2
             verdict = (spec.closures.get(n) if spec else None) or "true"
             lab = spec.opts.get("closure%d" % n) if spec else None
             self.extra.append(("pub struct %s;\nimpl ValidatorFn for %s {\n    open spec fn verdict(&self, key: Seq<char>, value: Value) -> bool {\n%s\n    }\n"
@@ -824,7 +886,7 @@ class FileEmitter:
 
     def disp_spec(self, parent, body):
         """R-display: write!(f, "{}", self.F) -> DispSpec impl delegating to F"""
-        m = re.search(r'write!\(f,\s*"\{\}",\s*&?(self\.\w+)\)', body or "")
+        m = re.search(r'write!\(f,\s*"\{\}",\s*&?(self\.\w+)\)', body or "") or re.search(r'\bf\.write_str\(\s*&?(self\.\w+)\s*\)', body or "")
         if not m:
             if re.search(r'write!\(f,\s*"[^{}"]*"\)', body or ""): return  # constant text (Debug for Key)
             raise ExtractError("%s:%d unsupported Display body" % (self.rel, parent.line))
@@ -983,7 +1045,7 @@ def emit_module(ctx, out, rel, modname, include, stubset, depth=0):
     if modname is not None:
         out.add("} // mod %s\n" % modname)
 
-def build(include=None, stubset=(), spec_paths=None, shim_paths=None, out_path=None, stub_fns=(), drop_uses=(), drop_contract_fns=(), ext_consts=(), renames=None, inline_fns=()):
+def build(include=None, stubset=(), spec_paths=None, shim_paths=None, out_path=None, stub_fns=(), drop_uses=(), drop_contract_fns=(), ext_consts=(), renames=None, inline_fns=(), baseline_params=None):
     specs = Specs()
     for p in (spec_paths or []):
         parse_vspec(p, specs)
@@ -991,7 +1053,7 @@ def build(include=None, stubset=(), spec_paths=None, shim_paths=None, out_path=N
     ctx_theorems = []
     ctx.theorems = ctx_theorems
     ctx.files = []; ctx.excluded = []
-    ctx.stub_fns = set(stub_fns); ctx.drop_uses = set(drop_uses); ctx.drop_contract_fns = set(drop_contract_fns); ctx.ext_consts = set(ext_consts); ctx.renames = dict(renames or {}); ctx.inline_defs = collect_inline_defs(set(inline_fns)) if inline_fns else {}
+    ctx.stub_fns = set(stub_fns); ctx.drop_uses = set(drop_uses); ctx.drop_contract_fns = set(drop_contract_fns); ctx.ext_consts = set(ext_consts); ctx.renames = dict(renames or {}); ctx.baseline_params = baseline_params or {}; ctx.inline_defs = collect_inline_defs(set(inline_fns)) if inline_fns else {}
     ctx.used_companions = set(); ctx.used_implitems = set(); ctx.lost_contracts = []
     out = Out()
     out.add("#![feature(allocator_api)]\n#![feature(sized_hierarchy)]\n#![allow(unused)]\n#![allow(unused_imports, dead_code, non_camel_case_types, unused_parens, unused_braces)]\nuse vstd::prelude::*;\n")
